@@ -115,6 +115,7 @@ Proof.
     destruct (btc_get_opcode script pc false) as [[[[o d] npc] ok]|e|] eqn:E.
     + apply get_opcode_advances in E.
       specialize (IH script sub npc ltac:(lia)).
+      destruct ok; [|discriminate].
       destruct (delete_walk f script sub npc); [discriminate|discriminate|congruence].
     + discriminate.
     + now apply get_opcode_no_oof in E.
